@@ -28,11 +28,11 @@ RULE = ('binary Al-Zr non-isothermal runs (ramps of both signs 1e-3..10 K/s, hol
         'threshold per step through maxDtFrac, maxTempChange in {0.5,1,2,5} K), ternary/two-phase schedule-following runs, triples of '
         'equivalent specifications, diffusion models with T(t) arrays and T(z,t) fields; non-trivial = total |dT| >= 5 maxTempChange over the '
         'observed steps (schedule cases) / nucleation rate > 0 on a step where T differs from its initial value (triples); distinct by configuration hash')
-REQUIRED_MONITORS = ['c13.recorded_T', 'c13.equivalent_runs', 'c13.table_fresh', 'c13.solvus_window', 'c13.diffusion_T']
+REQUIRED_MONITORS = ['c13.recorded_T', 'c13.equivalent_runs', 'c13.table_fresh', 'c13.solvus_window', 'c13.diffusion_T', 'c13.schedule_value']
 REACH = ['precipitation/PrecipitationParameters.py:TemperatureParameters.setTemperatureArray',
          'precipitation/KWNEuler.py:PrecipitateModel._growthRateBinary', 'precipitation/KWNEuler.py:PrecipitateModel._createLookupBinary',
          'precipitation/NucleationRate.py:incubationTimeNonIsothermal']
-MIN_NONTRIVIAL = {'quick': 12, 'thorough': 80}
+MIN_NONTRIVIAL = {'quick': 20, 'thorough': 140}
 CASE_TIMEOUT = 1200
 CASE_TIMEOUT_THOROUGH = 2400
 MAX_INCONCLUSIVE_FRACTION = 0.05
@@ -50,6 +50,7 @@ N_SCHED = {'quick': 14, 'thorough': 90}
 N_OTHER = {'quick': 5, 'thorough': 30}
 N_PAIR = {'quick': 6, 'thorough': 40}
 N_DIFF = {'quick': 6, 'thorough': 40}
+N_SCHED = {'quick': 8, 'thorough': 60}
 
 
 def _alzr_noniso(rng, tier, slow=None):
@@ -190,6 +191,8 @@ def plan(tier, seed):
                       'via': ['setter', 'ctor', 'setter'][(i // 3 + i) % 3], 'weight': 3e5})
     for i in range(N_DIFF[tier]):
         cases.append({'kind': 'diffusion', 'variant': i, 'weight': 5e4})
+    for i in range(N_SCHED[tier]):
+        cases.append({'kind': 'schedule_history', 'variant': i, 'weight': 1.0})
     return cases
 
 
@@ -217,9 +220,93 @@ def _compare_runs(R, a, b, label, cfg):
             first_difference=first, steps=(a.steps, b.steps))
 
 
+def _run_schedule_history(case, R):
+    """Histories of re-specification on ONE schedule object (precipitation and diffusion TemperatureParameters and a
+    PrecipitateModel's setTemperature): constant / break points / function in random order through constructor, the
+    generic setter and the specific setters, every specification evaluated several times before the next one replaces
+    it. Oracle: own interpolation of the specification in force (clamped linear interpolation in hours)."""
+    import kawin.precipitation as kp
+    import kawin.diffusion.DiffusionParameters as dp
+    rng = core.case_rng(case['seed'], PROPERTY, case['idx'])
+    def draw():
+        kind = ['const', 'array', 'array', 'function'][int(rng.integers(0, 4))]
+        if kind == 'const':
+            T0 = float(rng.uniform(300, 1500))
+            return kind, T0, (lambda t, T0=T0: T0)
+        if kind == 'array':
+            n = int(rng.integers(2, 7))
+            hrs = np.concatenate([[0.0], np.cumsum(rng.uniform(0.01, 5.0, n - 1))])
+            Ts = rng.uniform(300, 1500, n)
+            def ref(t, hrs=hrs, Ts=Ts):
+                h = t / 3600.0
+                if h <= hrs[0]:
+                    return float(Ts[0])
+                if h >= hrs[-1]:
+                    return float(Ts[-1])
+                k = int(np.searchsorted(hrs, h, side='right')) - 1
+                return float(Ts[k] + (Ts[k + 1] - Ts[k]) * (h - hrs[k]) / (hrs[k + 1] - hrs[k]))
+            return kind, (hrs.tolist(), Ts.tolist()), ref
+        a, b = float(rng.uniform(300, 900)), float(rng.uniform(1e-4, 1e-2))
+        return kind, (a, b), (lambda t, a=a, b=b: a + b * t)
+    nhist = 0
+    for flavour in ('precipitation', 'diffusion', 'model'):
+        for _ in range(12):
+            obj = None
+            prev = []
+            for step in range(int(rng.integers(2, 6))):
+                kind, spec, ref = draw()
+                if flavour == 'diffusion' and kind == 'function':
+                    a, b = spec
+                    arg = (lambda z, t, a=a, b=b: (a + b * t) * np.ones(len(z)))
+                elif kind == 'function':
+                    a, b = spec
+                    arg = (lambda t, a=a, b=b: a + b * t)
+                else:
+                    arg = spec
+                args = tuple(arg) if kind == 'array' else (arg,)
+                if obj is None:
+                    if flavour == 'precipitation':
+                        obj = kp.TemperatureParameters(*args)
+                    elif flavour == 'diffusion':
+                        obj = dp.TemperatureParameters(*args)
+                    else:
+                        obj = kp.PrecipitateModel(phases=['beta'], elements=['A'])
+                        obj.setTemperature(*args)
+                    how = 'ctor'
+                else:
+                    specific = rng.random() < 0.5
+                    tp = obj.temperatureParameters if flavour == 'model' else obj
+                    if flavour == 'model' and not specific:
+                        obj.setTemperature(*args); how = 'model_setter'
+                    elif specific or flavour == 'diffusion':
+                        {'const': tp.setIsothermalTemperature, 'array': tp.setTemperatureArray, 'function': tp.setTemperatureFunction}[kind](*args)
+                        how = 'specific_setter'
+                    else:
+                        tp.setTemperatureParameters(*args); how = 'generic_setter'
+                tp = obj.temperatureParameters if flavour == 'model' else obj
+                worst, wt = 0.0, None
+                for t in np.concatenate([[0.0], np.exp(rng.uniform(np.log(1.0), np.log(1e5), 6))]):
+                    if flavour == 'diffusion':
+                        got = np.asarray(tp(np.linspace(0, 1, 4), float(t)), dtype=float)
+                        err = float(np.max(np.abs(got - ref(float(t))))) if got.shape == (4,) else np.inf
+                    else:
+                        err = abs(float(tp(float(t))) - ref(float(t)))
+                    if err > worst:
+                        worst, wt = err, float(t)
+                R.worst('schedule_value_abs_K', worst)
+                R.check('c13.schedule_value', worst <= 1e-9 * 1500, {'object': flavour, 'spec': kind, 'how': how,
+                        'previous': prev[-1] if prev else 'none'}, max_abs_err_K=worst, at_time=wt, spec=spec if kind != 'function' else list(spec), history=list(prev))
+                prev.append(kind)
+            nhist += 1
+    R.observe('schedule_histories', nhist)
+    R.set_nontrivial(True, key='schedule_history:%d' % case['variant'])
+
+
 def run_case(case, R):
     if case['kind'] == 'diffusion':
         return _run_diffusion(case, R)
+    if case['kind'] == 'schedule_history':
+        return _run_schedule_history(case, R)
     from vlib.precip_run import TrajectoryRun
     from vlib.precip_monitors import C13Monitor
     cfg = case['cfg']
